@@ -50,20 +50,39 @@ def t3_case(case):
     rng = rng_for(case)
     variant = case['variant']
     c = Clauses(PID, 'tedmd.amuset_' + variant, case, modfunc=('vt.props.c18', 't3_case'))
-    d = int(rng.integers(1, 4))
-    m = int(rng.integers(6, 13))
-    x = rng.uniform(-1, 1, (d, m))
+    rotation = case['k'] % 4 == 3
+    if rotation:
+        # noisy damped rotation: the EDMD spectrum has complex-conjugate pairs, so the ordering by |lambda - 1| (complex
+        # distance) differs from an ordering by the real parts
+        d, m = 2, int(rng.integers(14, 22))
+        th, rho = float(rng.uniform(0.6, 1.2)), float(rng.uniform(0.85, 0.98))
+        Rm = rho * np.array([[np.cos(th), -np.sin(th)], [np.sin(th), np.cos(th)]])
+        x = np.zeros((2, m))
+        x[:, 0] = rng.uniform(-1, 1, 2)
+        for k_ in range(1, m):
+            x[:, k_] = Rm @ x[:, k_ - 1] + 0.02 * rng.standard_normal(2)
+        basis = [[tr.ConstantFunction(0), tr.Identity(0), tr.Monomial(0, 2)], [tr.ConstantFunction(1), tr.Identity(1), tr.Monomial(1, 2)]]
+        p = 2
+    else:
+        d = int(rng.integers(1, 4))
+        m = int(rng.integers(6, 13))
+        x = rng.uniform(-1, 1, (d, m))
+        p = int(rng.integers(1, 4))
+        basis = []
+        for _ in range(p):
+            i = int(rng.integers(d))
+            basis.append([tr.ConstantFunction(i), tr.Identity(i)] + ([tr.Monomial(i, 2)] if rng.integers(2) else []))
     x0 = x.copy()
-    p = int(rng.integers(1, 4))
-    basis = []
-    for _ in range(p):
-        i = int(rng.integers(d))
-        basis.append([tr.ConstantFunction(i), tr.Identity(i)] + ([tr.Monomial(i, 2)] if rng.integers(2) else []))
     P = dense_psi(x, basis)
     npairs = int(rng.integers(1, 4))
-    ln = int(rng.integers(3, m))
-    xs = [np.sort(rng.choice(m, size=ln, replace=False)) for _ in range(npairs)]
-    ys = [np.sort(rng.choice(m, size=ln, replace=False)) for _ in range(npairs)]
+    if rotation:
+        lags = [1, 2, 3][:npairs]
+        xs = [np.arange(0, m - lag) for lag in lags]
+        ys = [np.arange(lag, m) for lag in lags]
+    else:
+        ln = int(rng.integers(3, m))
+        xs = [np.sort(rng.choice(m, size=ln, replace=False)) for _ in range(npairs)]
+        ys = [np.sort(rng.choice(m, size=ln, replace=False)) for _ in range(npairs)]
     # precondition: clear gap of the spectrum of Psi_x around the coded relative cut 1e-3
     for xi in xs:
         sv = np.linalg.svd(P[:, xi], compute_uv=False)
@@ -92,7 +111,11 @@ def t3_case(case):
         got = np.asarray(lam_b[k])
         got_nz = got[np.abs(got) > 1e-9]
         real_spectrum = bool(np.max(np.abs(np.imag(nz))) < 1e-9) if len(nz) else True
-        sep = len(nz) < 2 or np.min(np.abs(np.diff(np.sort(np.abs(nz - 1))))) > 1e-6
+        # the order is determined up to ties; complex-conjugate pairs tie but have equal real parts, so only ties between
+        # eigenvalues with different real parts make the expected real-part sequence ambiguous
+        order_ = np.argsort(np.abs(nz - 1))
+        dist, rp = np.abs(nz - 1)[order_], np.real(nz)[order_]
+        sep = all(dist[q + 1] - dist[q] > 1e-6 or abs(rp[q + 1] - rp[q]) < 1e-9 for q in range(len(nz) - 1))
         if len(got_nz) == len(want) and sep:
             c.close('post:eigenvalues==dense-EDMD', got_nz, want, tol=1e-6, nontrivial=len(want) >= 2)
         elif sep:
